@@ -6,6 +6,7 @@ import (
 	"sort"
 	"strings"
 
+	apb "github.com/google/fhir/go/proto/google/fhir/proto/annotations_go_proto"
 	dtpb "github.com/google/fhir/go/proto/google/fhir/proto/r4/core/datatypes_go_proto"
 	"github.com/verily-src/fhirpath-go/fhirpath/patch"
 	"github.com/verily-src/fhirpath-go/fhirpath/verifh/core"
@@ -296,6 +297,19 @@ type c18Value struct {
 	v     fhir.Base // nil = nil value
 }
 
+// c18CodeOf: the FHIR code an enum value stands for (google/fhir: the
+// fhir_original_code annotation, else the lower-cased name with '-' for '_').
+func c18CodeOf(ev protoreflect.EnumValueDescriptor) string {
+	if orig, ok := proto.GetExtension(ev.Options(), apb.E_FhirOriginalCode).(string); ok && orig != "" {
+		return orig
+	}
+	return c18NameCode(ev)
+}
+
+func c18NameCode(ev protoreflect.EnumValueDescriptor) string {
+	return strings.ToLower(strings.ReplaceAll(string(ev.Name()), "_", "-"))
+}
+
 func c18ValuesFor(el protoreflect.Message, salt int) []c18Value {
 	vs := []c18Value{{"same-type", c18OtherValue(el, salt).(fhir.Base)}, {"nil", nil}}
 	full := string(el.Descriptor().FullName())
@@ -305,12 +319,47 @@ func c18ValuesFor(el protoreflect.Message, salt int) []c18Value {
 		vf := el.Descriptor().Fields().ByName("value")
 		switch {
 		case vf != nil && vf.Kind() == protoreflect.EnumKind:
-			// a code bound to a value set: valid and invalid code as string (sibling type)
-			valid := strings.ToLower(strings.ReplaceAll(string(vf.Enum().Values().Get(vf.Enum().Values().Len()-1).Name()), "_", "-"))
-			add("sibling:valid-code-as-string", fhir.String(valid))
-			add("sibling:valid-code-as-code", fhir.Code(valid))
+			// a code bound to a value set: valid codes and near-miss spellings as string and code (sibling types)
+			vals := vf.Enum().Values()
+			picks := []protoreflect.EnumValueDescriptor{vals.Get(vals.Len() - 1)}
+			for i := 1; i < vals.Len(); i++ {
+				if c18CodeOf(vals.Get(i)) != c18NameCode(vals.Get(i)) { // spelled differently from its enum name: "<", "POST", "1.4.0"
+					picks = append(picks, vals.Get(i))
+					break
+				}
+			}
+			for i := 1; i < vals.Len(); i++ {
+				if strings.Contains(c18CodeOf(vals.Get(i)), "-") { // a multi-word code
+					picks = append(picks, vals.Get(i))
+					break
+				}
+			}
+			seen := map[string]bool{}
+			for _, ev := range picks {
+				valid := c18CodeOf(ev)
+				if seen[valid] {
+					continue
+				}
+				seen[valid] = true
+				add("sibling:valid-code-as-string", fhir.String(valid))
+				add("sibling:valid-code-as-code", fhir.Code(valid))
+				other := strings.ToUpper(valid)
+				if other == valid {
+					other = strings.ToLower(valid)
+				}
+				if other != valid {
+					add("sibling:invalid-code-case", fhir.String(other))
+				}
+				if nc := c18NameCode(ev); nc != valid {
+					add("sibling:invalid-code-enum-name", fhir.Code(nc))
+				}
+				if strings.Contains(valid, "-") {
+					for _, sep := range []string{"_", " ", "."} {
+						add("sibling:invalid-code-separator", fhir.Code(strings.ReplaceAll(valid, "-", sep)))
+					}
+				}
+			}
 			add("sibling:invalid-code", fhir.String("not-a-code"))
-			add("sibling:invalid-code-case", fhir.String(strings.ToUpper(valid)))
 		case full == "google.fhir.r4.core.PositiveInt" || full == "google.fhir.r4.core.UnsignedInt":
 			add("sibling:integer", fhir.Integer(5))
 			add("sibling:negative-integer", fhir.Integer(-1))
@@ -732,16 +781,16 @@ func c18Convert(target protoreflect.MessageDescriptor, value proto.Message) prot
 	case interface{ GetValue() string }:
 		switch {
 		case vf.Kind() == protoreflect.EnumKind:
+			// the value is accepted exactly when it is the FHIR code of one of the enum's values
 			code := v.GetValue()
-			if code != strings.ToLower(code) {
-				return nil
+			vals := vf.Enum().Values()
+			for i := 0; i < vals.Len(); i++ {
+				if ev := vals.Get(i); ev.Number() != 0 && c18CodeOf(ev) == code {
+					t.Set(vf, protoreflect.ValueOfEnum(ev.Number()))
+					return t.Interface()
+				}
 			}
-			ev := vf.Enum().Values().ByName(protoreflect.Name(strings.ToUpper(strings.ReplaceAll(code, "-", "_"))))
-			if ev == nil || ev.Number() == 0 {
-				return nil
-			}
-			t.Set(vf, protoreflect.ValueOfEnum(ev.Number()))
-			return t.Interface()
+			return nil
 		case target.FullName() == "google.fhir.r4.core.ReferenceId":
 			t.Set(vf, protoreflect.ValueOfString(v.GetValue()))
 			return t.Interface()
